@@ -57,7 +57,7 @@ type ScenCase struct {
 	Shared    bool    `json:"shared_client"`
 }
 
-var mdKeys = []string{"authorization", "x-login", "x-pass", "x-user", "x-trace", "x-lit", "x-src"}
+var mdKeys = []string{"authorization", "x-login", "x-pass", "x-user", "x-trace", "x-lit", "x-src", "payload", "url", "body"}
 
 func genMD(t *rapid.T, auth bool) []MD {
 	n := rapid.IntRange(0, 4).Draw(t, "mdN")
